@@ -27,6 +27,9 @@ pub fn check(tier: Tier) -> Check {
         ));
     }
     parts.push(Part::new("C05/wide", json!({"n": 600}), 0, 120));
+    // the same with the context task held back while the requests are issued: 600 requests are
+    // waiting in its queue when it runs again (a burst on the request side)
+    parts.push(Part::new("C05/wide", json!({"n": 600, "held": true}), 0, 120));
     // the same exploration over a connection whose CONNECT / CONNACK carry everything else
     parts.push(Part::new("C05/ops", json!({"depth": tier.pick(5, 7), "flavour": 1}), 0, tier.pick(40, 600)));
     // identifier flavour: the counters start next to a boundary of their encodings (DESIGN 4)
@@ -147,8 +150,18 @@ fn wide(name: String, params: Value) -> Scenario {
         sys.w.handle().verif_set_ids(start_pid, 100);
         sys.events.push(format!("PresetCounters({}, 100)", start_pid));
         let specs = op_specs();
+        let held = params["held"].as_bool().unwrap_or(false);
+        if held {
+            sys.apply(Ev::Hold(Tid::Ctx));
+        }
         for i in 0..n {
             sys.apply(Ev::Start(specs[i % specs.len()].clone()));
+            if sys.dead {
+                return sys.report(ex, &[]);
+            }
+        }
+        if held {
+            sys.apply(Ev::Release(Tid::Ctx));
             if sys.dead {
                 return sys.report(ex, &[]);
             }
